@@ -314,6 +314,26 @@ def test_scalars(case, note):
             rel, ex, fd, trim = su.build(lvl, extra=fluid_extra(case[nm]))
             inv = rel["Weyl_invariants"]
             out[nm] = (inv["I"], inv["J"])
+            # the five returned quantities are the standard polynomials of
+            # the returned Weyl scalars (Stephani et al., sect. 9.3)
+            P0, P1, P2, P3, P4 = rel["Weyl_Psi"]
+            I_ = P0 * P4 - 4 * P1 * P3 + 3 * P2 * P2
+            L_ = P2 * P4 - P3 ** 2
+            poly = dict(
+                I=I_, L=L_,
+                J=(P4 * (P2 * P0 - P1 * P1) - P3 * (P3 * P0 - P1 * P2)
+                   + P2 * (P3 * P1 - P2 * P2)),
+                K=P1 * P4 ** 2 - 3 * P4 * P3 * P2 + 2 * P3 ** 3,
+                N=12 * L_ ** 2 - P4 ** 2 * I_)
+            pm = max(float(np.max(np.abs(x))) for x in (P0, P1, P2, P3, P4))
+            deg = dict(I=2, J=3, L=2, K=3, N=4)
+            for kk, want in poly.items():
+                if kk not in inv:
+                    note.fail(f"Weyl_invariants:missing:{kk}", {})
+                elif not np.all(np.abs(inv[kk] - want)
+                                <= 1e-11 * max(pm, 1e-3) ** deg[kk]):
+                    note.fail(f"Weyl_invariants:{kk}:not-the-polynomial", dict(
+                        err=float(np.max(np.abs(inv[kk] - want))), scale=pm))
             # E^u, B^u for a fluid moving relative to the slicing are the
             # contractions of the returned Weyl tensor with the returned u
             Cw = rel["st_Weyl_down4"]
